@@ -77,6 +77,9 @@ def run_pmm(ctx, prop):
                                                  ["CountIsEndMinusStart", "SkipEarlyReplay", "PoolForFrameStrict", "FreeNoBitTest"])
     for b in bugs:
         ctx.expect_model_violation(d, "MCPmm", "MCPmmBug_" + b, timeout=600)
+    if not boot and not q:
+        # a different allocation policy (highest clear bit first) keeps the property: the monitor must accept it
+        ctx.model_check(d, "MCPmm", "MCPmmPolicy_AllocHighestBit", timeout=600)
 
     # ---- leg G: replay the TLC-enumerated cases on the real package
     gcases = os.path.join(ctx.work, "gcases.ndjson")
